@@ -261,3 +261,53 @@ class v1_receive(Contract):
     def post(c, cx, result, self, typ, data):
         calls = cx.run.ghost.get('recv.calls', [])
         return {'returns_none': result is None, 'at_most_one_dispatch': len(calls) <= 1}
+
+
+# ----------------------------------------------------------------------------- parse_network_nack, parse_certificate
+from ndn.app_support import security_v2 as sv      # noqa: E402
+
+@contract
+class parse_network_nack(Contract):
+    fn = lp.parse_network_nack
+    props = ('C10', 'C07')
+    doc = ('parse_network_nack raises only documented decoding errors; it returns (reason, fragment) read from the envelope when a Nack '
+           'header is present and (None, None) otherwise')
+    raises = {e: (lambda cx, wire, with_tl=True: True) for e in DOCUMENTED}
+
+    def setup(self, cx):
+        k = cx.run.choose([('with_tl=True', True), ('with_tl=False', True)], 'with_tl')
+        return dict(wire=cx.run.input_buf('wire', 'bytes'), with_tl=(k == 'with_tl=True'))
+
+    def pre(c, cx, wire, with_tl):
+        return isinstance(wire, View)
+
+    def post(c, cx, result, wire, with_tl):
+        ok = isinstance(result, tuple) and len(result) == 2
+        out = {'returns_a_pair': ok}
+        if ok:
+            reason, frag = result
+            out['without_nack_header_both_none_with_one_the_fragment_of_this_envelope'] = (reason is None and frag is None) or \
+                (frag is None or (isinstance(frag, View) and Eq(frag.cell, wire.cell) is True))
+        return out
+
+
+@contract
+class parse_certificate(Contract):
+    fn = sv.parse_certificate
+    props = ('C07', 'C16')
+    doc = ('parse_certificate raises only documented decoding errors (Type must be Data, lengths must agree, the mandatory Name must be '
+           'present); what it returns is a CertificateV2Value read from this wire that has a Name')
+    raises = {e: (lambda cx, wire: True) for e in DOCUMENTED}
+
+    def setup(self, cx):
+        return dict(wire=cx.run.input_buf('wire', 'bytes'))
+
+    def pre(c, cx, wire):
+        return isinstance(wire, View)
+
+    def post(c, cx, result, wire):
+        ok = isinstance(result, LazyParsed)
+        out = {'returns_a_certificate_value': ok and result.cls is sv.CertificateV2Value}
+        if ok:
+            out['mandatory_name_present'] = result.getattr_(cx.it, '__dict__', None).contains(cx.it, 'name', None)
+        return out
